@@ -204,7 +204,7 @@ func (e *Exec) storeElem(fr *Frame, in ssa.Instruction, a *ArrObj, idx *smt.Term
 	lo, hi := e.idxRange(idx, len(a.Elems))
 	// check mergeability first
 	for i := lo; i <= hi; i++ {
-		if _, ok := e.iteVal(e.ctx.BoolC(true), v, a.Elems[i]); !ok {
+		if _, ok := e.iteVal(e.ctx.Var("mergeprobe", smt.Bool, nil, nil), v, a.Elems[i]); !ok {
 			k := e.concretize(fr, in, idx, lo, hi)
 			e.storeInto(&a.Elems[k], v)
 			return
